@@ -62,6 +62,8 @@ def run_scenario(chk, sc, cfgseed, ndims):
     d = os.path.join(chk.tmp_reuse(), "p")
     os.makedirs(os.path.dirname(d))
     reg = gamma.write_plotfile(d, ap, cfg)
+    if cfgseed % 5 == 2:
+        gamma.add_stale_files(d, ap, cfg, cfgseed)          # left-overs of an earlier, larger plotfile in the same directory
     A = alpha.abstract(d, reg)
     if alpha.wellformed(A):
         raise core.MachineryError("gamma/alpha self-check failed: %r" % alpha.wellformed(A)[:2])
